@@ -291,7 +291,7 @@ func genOrderDigestFacts() {
 	l.p("def parseServerOrderAssigns : List (String × String) := %s", leanStrPairs(psoAssigns))
 	l.p("def supplyToSatoshis : List String := %s", leanStrList(funcBodyStrings(toSat)))
 	l.p("def supplyFromSats : List String := %s", leanStrList(funcBodyStrings(fromSat)))
-	l.p("def baseSupplyUnit : Nat := %s", intConst(ce, "order", "BaseSupplyUnit"))
+	l.p("def digestBaseSupplyUnit : Nat := %s", intConst(ce, "order", "BaseSupplyUnit"))
 	for _, n := range []string{"VersionDefault", "VersionNodeTierMinMatch", "VersionLeaseDurationBuckets",
 		"VersionSelfChanBalance", "VersionSidecarChannel", "VersionChannelType"} {
 
